@@ -60,39 +60,64 @@ def quietRunB : List Block → App → CSet → Bool
      | .error _ => true)
 
 
-/-! ### the wider class: removals included (hypotheses of the envelope theorem of Lemmas/Quiet2) -/
+/-! ### the wider class: removals, and punishments by x/slashing and x/evidence, included (hypotheses of the envelope theorem
+    of Lemmas/Quiet2) -/
 
 def fits2B (s : App) (c : CSet) : Bool :=
   decide (s.index.length ≤ s.params.maxVals) && noShadow s s.index && decide (Comet.total c + idxPow s s.index ≤ maxTotalPower) &&
-  decide (0 ≤ s.lastTotal) && decide (s.lastTotal ≤ maxTotalPower)
+  decide (0 ≤ s.lastTotal) && decide (s.lastTotal ≤ maxTotalPower) &&
+  decide (sumF nbTok s.vals ≤ s.notBonded) && decide (sumF bTok s.vals ≤ s.bonded)
+
+def isActiveB (v : Val) : Bool :=
+  v.status == .bonded && !v.jailed && decide (powerOf v.tokens > 0) && decide (v.shares ≠ 0)
+
+/-- the shape of what the punishing BeginBlockers (x/slashing, x/evidence) did: `s0` the state with the new height and
+    time, `s1` the state after them -/
+def punShapeB (s0 s1 : App) : Bool :=
+  decide (s1.vals.map (·.op) = s0.vals.map (·.op)) &&
+  s0.vals.all (fun v => match s1.getVal v.op with
+    | some w => decide (w.key = v.key) &&
+        (decide (w = v) || (isActiveB v && !s0.updated.contains v.op && w.jailed && decide (w.shares ≠ 0) && w.status == .bonded))
+    | none => false) &&
+  s0.vals.any (fun v => isActiveB v && decide (s1.getVal v.op = some v)) &&
+  decide (s1.last = s0.last) && decide (s1.ubq = s0.ubq) && decide (s1.cons = s0.cons) && decide (s1.pending = s0.pending) &&
+  decide (s1.updated = s0.updated) && decide (s1.params.unbond = s0.params.unbond) && decide (s1.lastTotal = s0.lastTotal) &&
+  s1.index.all (fun e => s0.index.contains e) && decide (s1.index.Nodup) &&
+  s0.vals.all (fun v => if s1.getVal v.op = some v then decide (occ v.op s1.index = occ v.op s0.index) else true) &&
+  s0.index.all (fun e => if s1.getVal e.2 = s0.getVal e.2 then s1.index.contains e else true) &&
+  s1.vals.all (fun w => !w.jailed || decide (occ w.op s1.index = 0)) &&
+  s1.vals.all (fun w => (alookup w.key s1.infos).isSome)
 
 def quietTx2B (s : App) (incs : List (Signer × Nat)) (tx : Tx) : Bool :=
-  decide ((runTx genEnv s incs tx).2.1 = s) ||
   match tx.signer, tx.msgs with
   | .admin, [.setPower (some op) p _] =>
     (runTx genEnv s incs tx).1 != TxR.ok || (s.pendingFind op).isSome ||
-      ((match s.getVal op with | some v => decide (powerOf v.tokens > 0) | none => true) &&
+      ((match s.getVal op with | some v => decide (powerOf v.tokens > 0) && !v.jailed | none => true) &&
         !s.updated.contains op && !s.index.contains (p / PR, op))
   | _, [.remove (some op)] =>
     (runTx genEnv s incs tx).1 != TxR.ok ||
       (match s.getVal op with
-       | some v => decide (powerOf v.tokens > 0) && !s.updated.contains op && s.index.contains (powerOf v.tokens, op)
+       | some v => decide (powerOf v.tokens > 0) && !v.jailed && !s.updated.contains op && s.index.contains (powerOf v.tokens, op)
        | none => false)
   | _, [.create _] => true
   | _, [.rmPending _] => true
   | _, [.params _] => true
-  | _, _ => false
+  | _, _ => decide ((runTx genEnv s incs tx).2.1 = s)
 
 def quietTxs2B : List Tx → App → List (Signer × Nat) → Bool
   | [], _, _ => true
   | tx :: rest, s, incs => quietTx2B s incs tx && quietTxs2B rest (runTx genEnv s incs tx).2.1 (runTx genEnv s incs tx).2.2
 
+/-- the state after x/slashing's and x/evidence's BeginBlockers -/
+def punishState (s : App) (b : Block) : Except Halt App :=
+  match slashingBegin b.votes { s with height := s.height + 1, time := s.time + b.dt } with
+  | .error h => .error h
+  | .ok s1 => evidenceBegin b.evid s1
+
 def quietBlock2B (s : App) (c : CSet) (b : Block) : Bool :=
-  (match slashingBegin b.votes { s with height := s.height + 1, time := s.time + b.dt } with
-   | .ok s1 =>
-     decide (s1 = { s with height := s.height + 1, time := s.time + b.dt, infos := s1.infos, bitmap := s1.bitmap }) &&
-     s.vals.all (fun v => (alookup v.key s1.infos).isSome)
-   | .error _ => false) && b.evid.isEmpty && b.gov.isEmpty &&
+  (match punishState s b with
+   | .ok s1 => punShapeB { s with height := s.height + 1, time := s.time + b.dt } s1
+   | .error _ => false) && b.gov.isEmpty &&
   (match beginState genEnv s b with
    | .ok s2 => quietTxs2B b.txs s2 [] && fits2B (runTxs genEnv b.txs s2 [] []).2 c
    | .error _ => true)
